@@ -85,6 +85,8 @@ def preprocess_mcwf(
 
     # 1. Initial State to Vector
     psi = initial_state.to_vec()
+    # to_vec() puts site 0 in the least significant position; the embedded operators put it leftmost
+    psi = psi.reshape([2] * num_sites).transpose(*reversed(range(num_sites))).reshape(-1)
     psi /= np.linalg.norm(psi)
 
     # 2. Convert Hamiltonian MPO to sparse matrix
